@@ -29,6 +29,13 @@
 // the sequence headers and a marker, sessions end with the publisher, nothing
 // is dialled without a publisher.
 //
+// Audit follow-up (audit-1 entries 1 and 5): pulls use rtmp:// or rtsp:// urls
+// (rtsporigin_test.go scripts the RTSP origin), consumers are RTMP / FLV / TS /
+// RTSP-at-DESCRIBE, publishers RTMP / RTSP / customize, an attempt reported as
+// stopped that never reached the origin is a missing attempt, and the push
+// target's content is judged message by message (order, once, timestamps,
+// @setDataFrame on metadata) for RTMP and RTSP publishers.
+//
 // Deliberately NOT asserted: wall-clock spacing of retries; budgets other than
 // {0, 1..3, -1}; sub-tick precision of the auto-stop window (presence is
 // sampled at ticks - the only clock the rules have - and a stream that never
@@ -868,6 +875,13 @@ func runPush0(c PushCase) *pbt.Violation {
 			} else {
 				// numbered frames over RTP, then padding: lal's RTSP ingest hands frames on in bursts of 128 packets (DESIGN
 				// section 7: the newest frames are held until later ones arrive), and the push write buffer wants 4 KiB
+				// lal hands the sdp of an RTSP publisher to the group from a goroutine of its own (BaseInSession.SetObserver);
+				// RTP that overtakes it is remuxed before the sequence header exists - C07's subject, kept out of this
+				// check by waiting until the group knows the video codec
+				pt = newPatience(0)
+				if !patient(pt, func() bool { sg := s.SM.StatGroup(w.name); return sg != nil && sg.VideoCodec != "" }) {
+					return pt.verdict(pbt.V("push/rtsp-publisher-sdp-not-processed", "publisher %d (rtsp): %v after RECORD the stream still reports no video codec", pi, pt.waited()))
+				}
 				for i := 0; i < ps.Frames+134; i++ {
 					spec := gen.NalSpec{Hdr: []byte{0x41}, Len: 60, Seed: ps.ContentSeed + uint32(i), Serial: uint32(i)}
 					if i == 0 {
